@@ -96,11 +96,20 @@ impl<T> MakeFragments<T>
 where
     T: Buf,
 {
-    fn new(id: u16, mtu: usize, buf: T) -> MakeFragments<T> {
-        assert!(mtu > 4);
-        let size = mtu - 4;
+    fn new(id: u16, mtu: usize, mut buf: T) -> MakeFragments<T> {
         let len = buf.remaining();
-        let total = div_ceil(len, size) as u8;
+        let total = if mtu > 4 {
+            div_ceil(len, mtu - 4)
+        } else {
+            usize::MAX
+        };
+        // can not be represented in the fragment header: refuse, yield no fragments at all
+        let total = if total > MAX_FRAGMENTS {
+            buf.advance(len);
+            0
+        } else {
+            total as u8
+        };
         MakeFragments {
             buf,
             mtu,
